@@ -289,3 +289,61 @@ def replay(path):
         return 1
     print("not reproduced (rc=%d)" % p.returncode)
     return 0
+
+
+# ------------------------------------------------------------------ generic: one detector-level unit
+
+def run_det_unit(ctx, unit_name, only=None):
+    """Assemble + verify unit `unit_name`. Returns (coverage, failed: {obligation: [failure]}, undecided: [str])."""
+    from . import unit_det
+    undec = []
+    try:
+        u = unit_det.build(ctx, unit_name, only)
+    except (C.LostAnchor, C.Unsupported) as e:
+        return ({"unit": unit_name, "obligations": 0, "discharged": 0}, {}, ["unit %s could not be assembled: %s" % (unit_name, e)])
+    fid = u.fidelity_report()
+    if not fid["ok"]:
+        bad = [i for i in fid["items"] if not i["ok"]]
+        return ({"unit": unit_name, "obligations": 0, "discharged": 0}, {}, ["unit %s: fidelity check failed: %r" % (unit_name, bad[:2])])
+    job = Job(unit_name, u)
+    run_job(job)
+    r = job.result
+    failed = {}
+    for f in job.failures:
+        failed.setdefault(f["obligation"], []).append(f)
+    obs = {unit_name + "/" + o[0]: o[1] for o in u.obligations}
+    # a failure located in copied code (precondition / overflow / index site) is an obligation of its own
+    for ob in failed:
+        obs.setdefault(ob, "panic-freedom / callee precondition at this site")
+    fns = [f for f in r.get("functions", []) if not f["function"].startswith("vstd::")]
+    cov = {
+        "unit": unit_name,
+        "obligations": len(obs),
+        "discharged": len([o for o in obs if o not in failed]),
+        "verus_functions_verified": r.get("verified"),
+        "verus_errors": r.get("n_errors"),
+        "solver_ms": r.get("smt_ms"),
+        "total_ms": r.get("total_ms"),
+        "checker_cmd": r.get("cmd"),
+        "functions_under_contract": sorted(set(o.split(":", 1)[1] for o in obs if o.startswith(unit_name + "/post:"))),
+        "lemmas": sorted(o.split(":", 1)[1] for o in obs if o.startswith(unit_name + "/lemma:")),
+        "obligation_list": sorted(obs),
+        "failed_obligations": sorted(failed),
+        "trusted_constructs_in_unit": scan_assumptions(u.render()),
+        "fidelity": {"items": len(fid["items"]), "all_token_streams_equal": True,
+                     "sha256": {i["item"]: i["sha256"][:16] for i in fid["items"] if i["file"].startswith(C.REPO)}},
+        "slow_functions": [f for f in fns if f["ms"] > 5000],
+    }
+    if r.get("timed_out"):
+        undec.append("unit %s: verus timed out" % unit_name)
+    return cov, failed, undec
+
+
+def merge_cov(covs):
+    out = {"obligations": 0, "discharged": 0, "solver_ms": 0, "units": {}}
+    for c in covs:
+        out["obligations"] += c.get("obligations", 0)
+        out["discharged"] += c.get("discharged", 0)
+        out["solver_ms"] += c.get("solver_ms") or 0
+        out["units"][c.get("unit", "?")] = c
+    return out
